@@ -352,6 +352,27 @@ pub fn replay_layer(case: &Value, rep: &mut Report) {
 
     // ---- backward (C01): gradients and their shapes (C08) ----
     let Some((pre, _post, max)) = observed else { return };
+    // backward is LINEAR in the upstream gradient: the same gradient scaled by 2^-30 (exact) scales every result by
+    // 2^-30 -- also when that makes it far smaller than the machine epsilon
+    if forward_ok {
+        let sc = (2.0f64).powi(-30) as f32;
+        let gs_flat: Vec<f32> = flat(&g).iter().map(|v| v * sc).collect();
+        let gs = if kind == "dense" { Tensor::single(gs_flat) } else { crate::tensors::triple_rowmajor(&data_dims(&g.data), &gs_flat) };
+        rep.checks += 1;
+        if let (Ok((dx0, dw0, db0)), Ok((dx1, dw1, db1))) = (guarded(|| layer.backward(&g, &x, &pre, &max)), guarded(|| layer.backward(&gs, &x, &pre, &max))) {
+            let scaled_ok = |a: &Tensor, b: &Tensor| {
+                let (fa, fb) = (flat(a), flat(b));
+                fa.len() == fb.len() && fa.iter().zip(fb.iter()).all(|(u, v)| *u * sc == *v)
+            };
+            let mut bad: Vec<&str> = Vec::new();
+            if !scaled_ok(&dx0, &dx1) { bad.push("input gradient"); }
+            if let (Some(a), Some(b)) = (&dw0, &dw1) { if !scaled_ok(a, b) { bad.push("weight gradient"); } }
+            if let (Some(a), Some(b)) = (&db0, &db1) { if !scaled_ok(a, b) { bad.push("bias gradient"); } }
+            if !bad.is_empty() {
+                rep.mismatch("C01", &format!("gradient_not_linear_in_upstream_gradient:{}", kind), &id, json!({"scale": "2^-30", "differs": bad}), case);
+            }
+        }
+    }
     let mut spatial_ok = false;
     for (repr, input, grad) in [("spatial", &x, &g), ("flat", &xflat, &Tensor::single(flat(&g)))] {
         if kind == "dense" && repr == "flat" {
